@@ -67,20 +67,22 @@ func renameCallsToCallable(callable syntax.Callable,
 				// Either the call was already aliased or changing the name
 				// would cause a collision.
 				edits = append(edits, renameCallEdit{
-					Pipeline: pipe,
-					File:     syntax.DefiningFile(call),
-					OldId:    call.Id,
-					Id:       call.Id,
-					DecId:    newName,
+					Pipeline:   pipe,
+					PipelineId: pipe.Id,
+					File:       syntax.DefiningFile(call),
+					OldId:      call.Id,
+					Id:         call.Id,
+					DecId:      newName,
 				})
 			} else {
 				newIds[call.Id] = newName
 				edits = append(edits, renameCallEdit{
-					Pipeline: pipe,
-					File:     syntax.DefiningFile(call),
-					OldId:    call.Id,
-					Id:       newName,
-					DecId:    newName,
+					Pipeline:   pipe,
+					PipelineId: pipe.Id,
+					File:       syntax.DefiningFile(call),
+					OldId:      call.Id,
+					Id:         newName,
+					DecId:      newName,
 				})
 			}
 		}
@@ -126,13 +128,7 @@ func updateRefsFromBinding(edits editSet, binding *syntax.BindStm,
 	// Must edit the original AST here or else other edits will be operating on
 	// the incorrect expression.
 	binding.Exp = exp
-	return append(edits, &editBinding{
-		Pipeline: pipe,
-		Call:     call,
-		Binding:  binding,
-		Mods:     isMods,
-		Exp:      exp,
-	})
+	return append(edits, newEditBinding(pipe, call, binding, isMods, exp))
 }
 
 func updateRef(ref *syntax.RefExp, kind syntax.ExpKind,
@@ -227,10 +223,13 @@ type (
 
 	renameCallEdit struct {
 		Pipeline *syntax.Pipeline
-		File     string
-		OldId    string
-		Id       string
-		DecId    string
+		// The name of the pipeline when the edit was created.  A later
+		// edit may rename the pipeline, but this one is applied first.
+		PipelineId string
+		File       string
+		OldId      string
+		Id         string
+		DecId      string
 	}
 )
 
@@ -275,7 +274,7 @@ func (e renameCallEdit) Apply(ast *syntax.Ast) (int, error) {
 	}
 	edits := 0
 	for _, p := range ast.Pipelines {
-		if p.Id != e.Pipeline.Id ||
+		if p.Id != e.PipelineId ||
 			syntax.DefiningFile(p) != syntax.DefiningFile(e.Pipeline) {
 			continue
 		}
